@@ -16,7 +16,9 @@ ADD_FNS = ("addpath", "adddict", "addpd", "addpl")
 DF_FNS = ("addpd", "addpl", "pd", "pl")
 NAMED_REJ = ("TreeError", "DuplicatedNodeError")
 
-RULE = ("all eight path constructors (pandas/polars through the real libraries) on path multisets over the "
+RULE = ("[the input object is built once and deep-compared before/after the call; 25% of the from-scratch cases build TWICE "
+        "from the same input object; half of the dict cases share one attribute-map object between equal entries] "
+        "all eight path constructors (pandas/polars through the real libraries) on path multisets over the "
         "prefix/suffix-related alphabet {a,b,ab,ba,aa,xa,'a b','a.b',c} (plus distinct names), 1-12 paths, depth<=7, "
         "repeated paths, any order, all four leading/trailing-separator spellings, separators / . \\ | and ::, "
         "attribute maps with ints/strings/bools/None, both settings of duplicate_name_allowed, pre-existing random "
@@ -58,7 +60,8 @@ def path_str(item, sep):
 def _line(d):
     fn = d["fn"]
     mfn = {"addpd": "addrows", "addpl": "addrows", "pd": "rows", "pl": "rows"}.get(fn, fn)
-    parts = ["fn=" + mfn, "sep=" + hx(d["sep"]), "dup=%d" % (1 if d["dup"] else 0)]
+    parts = ["fn=" + mfn, "sep=" + hx(d["sep"]), "dup=%d" % (1 if d["dup"] else 0),
+             "rep=%d" % d.get("rep", 1), "share=%d" % (1 if d.get("share") else 0)]
     if fn in DF_FNS:
         parts.append("lib=" + fn[-2:] + str(d.get("pathpos", 0)))
     if fn in ADD_FNS:
@@ -80,8 +83,24 @@ def rehydrate(case):
 
 
 # ---------------------------------------------------------------- running the real code
-def _call(d):
-    """returns (result_root, returned_node_or_None, ids)"""
+def _snapshot(inp):
+    import copy
+    if hasattr(inp, "clone"):       # polars
+        return inp.clone()
+    if hasattr(inp, "copy") and hasattr(inp, "columns"):   # pandas
+        return inp.copy(deep=True)
+    return copy.deepcopy(inp)
+
+
+def _same(x, y):
+    if hasattr(x, "columns"):
+        return list(x.columns) == list(y.columns) and bool(x.equals(y))
+    return x == y
+
+
+def _runs(d):
+    """The input object (list / dict / DataFrame / node_attrs) is built ONCE; the constructor is called d['rep']
+    times on it (from-scratch constructors only). Returns ([(root, ret, ids, err)], input_unchanged)."""
     import bigtree
     fn, sep, dup = d["fn"], d["sep"], d["dup"]
     items = d["items"]
@@ -92,6 +111,13 @@ def _call(d):
         ids = core.IdMap(nodes)
         start = nodes[d.get("start", 0)]
     strs = [path_str(it, sep) for it in items]
+    shared = {}
+    def attrs_of(it):
+        # equal attribute maps may be one and the same dict object (aliasing inside the input)
+        if not d.get("share"):
+            return dict(it[3])
+        key = repr(sorted(it[3].items(), key=lambda kv: kv[0]))
+        return shared.setdefault(key, dict(it[3]))
     if fn in DF_FNS:
         cols = []
         for it in items:
@@ -102,42 +128,68 @@ def _call(d):
         lib = "pd" if fn.endswith("pd") else "pl"
         pos = d.get("pathpos", 0)
         if pos == 1:
-            frame = U.make_frame(lib, cols + ["path"], [r[1:] + r[:1] for r in rows], str_cols=("path",))
+            arg = U.make_frame(lib, cols + ["path"], [r[1:] + r[:1] for r in rows], str_cols=("path",))
             kw = {"path_col": "path"}
         else:
-            frame = U.make_frame(lib, ["path"] + cols, rows, str_cols=("path",))
+            arg = U.make_frame(lib, ["path"] + cols, rows, str_cols=("path",))
             kw = {}
-    if fn == "addpath":
+    elif fn in ("dict", "adddict"):
+        arg = {s: attrs_of(it) for s, it in zip(strs, items)}
+    elif fn == "list":
+        arg = list(strs)
+    else:
         assert len(items) == 1
-        ret = bigtree.add_path_to_tree(start, strs[0], sep=sep, duplicate_name_allowed=dup, node_attrs=dict(items[0][3]))
-        return root, ret, ids
-    if fn == "adddict":
-        r = bigtree.add_dict_to_tree_by_path(start, {s: dict(it[3]) for s, it in zip(strs, items)}, sep=sep,
-                                             duplicate_name_allowed=dup)
-        return r, None, ids
-    if fn == "addpd":
-        return bigtree.add_dataframe_to_tree_by_path(start, frame, sep=sep, duplicate_name_allowed=dup, **kw), None, ids
-    if fn == "addpl":
-        return bigtree.add_polars_to_tree_by_path(start, frame, sep=sep, duplicate_name_allowed=dup, **kw), None, ids
-    if fn == "list":
-        return bigtree.list_to_tree(strs, sep=sep, duplicate_name_allowed=dup), None, None
-    if fn == "dict":
-        return bigtree.dict_to_tree({s: dict(it[3]) for s, it in zip(strs, items)}, sep=sep, duplicate_name_allowed=dup), None, None
-    if fn == "pd":
-        return bigtree.dataframe_to_tree(frame, sep=sep, duplicate_name_allowed=dup, **kw), None, None
-    if fn == "pl":
-        return bigtree.polars_to_tree(frame, sep=sep, duplicate_name_allowed=dup, **kw), None, None
-    raise ValueError(fn)
+        arg = dict(items[0][3])
+    if fn == "addpath":
+        invoke = lambda: (root, bigtree.add_path_to_tree(start, strs[0], sep=sep, duplicate_name_allowed=dup, node_attrs=arg))
+    elif fn == "adddict":
+        invoke = lambda: (bigtree.add_dict_to_tree_by_path(start, arg, sep=sep, duplicate_name_allowed=dup), None)
+    elif fn == "addpd":
+        invoke = lambda: (bigtree.add_dataframe_to_tree_by_path(start, arg, sep=sep, duplicate_name_allowed=dup, **kw), None)
+    elif fn == "addpl":
+        invoke = lambda: (bigtree.add_polars_to_tree_by_path(start, arg, sep=sep, duplicate_name_allowed=dup, **kw), None)
+    elif fn == "list":
+        invoke = lambda: (bigtree.list_to_tree(arg, sep=sep, duplicate_name_allowed=dup), None)
+    elif fn == "dict":
+        invoke = lambda: (bigtree.dict_to_tree(arg, sep=sep, duplicate_name_allowed=dup), None)
+    elif fn == "pd":
+        invoke = lambda: (bigtree.dataframe_to_tree(arg, sep=sep, duplicate_name_allowed=dup, **kw), None)
+    elif fn == "pl":
+        invoke = lambda: (bigtree.polars_to_tree(arg, sep=sep, duplicate_name_allowed=dup, **kw), None)
+    else:
+        raise ValueError(fn)
+    before = _snapshot(arg)
+    out = []
+    for _ in range(d.get("rep", 1) if fn not in ADD_FNS else 1):
+        try:
+            r, ret = invoke()
+            out.append((r, ret, ids, None))
+        except Exception as e:
+            out.append((None, None, ids, e))
+    return out, _same(before, arg)
+
+
+def _call(d):
+    """first build: returns (result_root, returned_node_or_None, ids) or raises"""
+    runs, _ = _runs(d)
+    r, ret, ids, err = runs[0]
+    if err is not None:
+        raise err
+    return r, ret, ids
 
 
 def _canon(d):
-    try:
-        root, ret, ids = _call(d)
-    except Exception as e:
-        return U.rej(e, NAMED_REJ)
-    if d["fn"] == "addpath":
-        return "ok " + U.addr_of(ret) + " " + U.show_res(ret.root, ids)
-    return "ok " + U.show_res(root, ids)
+    runs, _ = _runs(d)
+    outs = []
+    for root, ret, ids, err in runs:
+        if err is not None:
+            outs.append(U.rej(err, NAMED_REJ))
+        elif d["fn"] == "addpath":
+            outs.append("ok " + U.addr_of(ret) + " " + U.show_res(ret.root, ids))
+        else:
+            outs.append("ok " + U.show_res(root, ids))
+    # repeated builds from the same input object must all give the model's answer
+    return outs[0] if all(o == outs[0] for o in outs) else " || ".join(outs)
 
 
 def impl(case):
@@ -220,12 +272,16 @@ def oracle(case):
     if root_name is not None:
         walk((root_name,))
     # ---- observed
-    try:
-        root, ret, ids = _call(d)
-        err = None
-    except Exception as e:
-        root = ret = ids = None
-        err = e
+    runs, unchanged = _runs(d)
+    root, ret, ids, err = runs[0]
+    if not unchanged:
+        msgs.append(f"{fn}: the call modified its input (paths / attribute maps / DataFrame)")
+    if len(runs) > 1:
+        def _c(r):
+            return U.rej(r[3], NAMED_REJ) if r[3] is not None else "ok " + U.show_res(r[0], None)
+        if any(_c(r) != _c(runs[0]) for r in runs[1:]):
+            msgs.append(f"{fn}: a second build from the same input object gives a different tree: "
+                        f"{[_c(r) for r in runs]}")
     if err is not None:
         if dup and valid:
             msgs.append(f"{fn}: valid input refused with {type(err).__name__}: {err}")
@@ -458,6 +514,9 @@ def _rand_case(rng, fn, malformed=False):
             a[c0] = U.rand_attr_value(rng, c0) if a.get(c0) is None else None
             items.insert(rng.randint(0, len(items)), [list(items[k][0]), 0 if items[k][1] else 1, items[k][2], a])
     d["items"] = items
+    d["rep"] = rng.choice([1, 1, 1, 2]) if fn not in ADD_FNS else 1
+    d["share"] = fn in ("dict", "adddict") and rng.random() < 0.5
+    tags.append("rep=%d" % d["rep"])
     if fn in DF_FNS:
         d["pathpos"] = rng.choice([0, 0, 1])
     depth = max([len(it[0]) for it in items], default=0)
@@ -560,6 +619,10 @@ def nontrivial(case):
 def shrink(case):
     d = case.data
     items = d["items"]
+    if d.get("rep", 1) > 1:
+        yield mk(dict(d, rep=1), case.tags)
+    if d.get("share"):
+        yield mk(dict(d, share=False), case.tags)
     if len(items) > 1 and d["fn"] != "addpath":
         for k in range(len(items)):
             yield mk(dict(d, items=items[:k] + items[k + 1:]), case.tags)
